@@ -24,11 +24,22 @@ func TestMakeExemplars(t *testing.T) {
 		return c
 	}
 	cases := map[string]ParseCase{
-		"F10-trailing-tokens":   mk("1 2 3 4 5"),
+		"F10-trailing-tokens":    mk("1 2 3 4 5"),
 		"F10-syntax-error-early": mk("(1+2", "let a=;1 2 3", "if x then 1 2 3 4"),
 	}
 	for name, c := range cases {
 		os.Setenv("VERIF_FAILFILE", filepath.Join(dir, name+".json"))
 		evid.WriteFailure(evid.Failure{Property: prop, Test: "parse", Message: "regression exemplar", Case: c})
+	}
+	pipes := map[string]PipeCase{
+		"multiUse-rejects-a-later-entry":   {Text: "numbers(10).multiUse({a: l -> l.reduce((a, b) -> a + b), b: 3})", Repeats: 3, Consume: "force"},
+		"multiUse-rejects-a-later-closure": {Text: "numbers(1000).map(n -> n + 1).multiUse({a: l -> l.first(), b: l -> l.mapReduce(0, (s, i) -> s + i), c: (x, y) -> x * y})", Repeats: 3, Consume: "force"},
+		"multiUse-consumer-fails-at-once":  {Text: "numbers(500).multiUse({n: l -> l.size(), f: l -> throw(\"x\"), s: l -> l.map(e -> e * 2).sum()})", Repeats: 3, Consume: "force"},
+		"merge-with-early-stop":            {Text: "numbers(400).merge(numbers(300).map(e -> e * 2), (a, b) -> a < b).first()", Repeats: 3, Consume: "force"},
+		"lazy-result-dropped":              {Text: "numbers(200).merge(numbers(100), (a, b) -> a < b).map(e -> e + 1)", Repeats: 2, Consume: "drop"},
+	}
+	for name, c := range pipes {
+		os.Setenv("VERIF_FAILFILE", filepath.Join(dir, name+".json"))
+		evid.WriteFailure(evid.Failure{Property: prop, Test: "pipeline", Message: "regression exemplar", Case: c})
 	}
 }
